@@ -135,6 +135,26 @@ func FamilyName(thorough bool) []*Conv {
 		Decls: "type PFXIn struct{ V int }\ntype PFXInT struct{ V int }\ntype PFXOuterA struct{ I PFXIn }\ntype PFXOuterAT struct{ I PFXInT }\ntype PFXOuterB struct{ I PFXIn }\ntype PFXOuterBT struct{ I PFXInT }\n\n// goverter:converter\n// goverter:output:format function\n// goverter:output:file ./input.gen.go\n// goverter:output:package corpus/GRP\ntype PFXShared interface {\n\tPFXConvB(source PFXOuterB) PFXOuterBT\n}\n",
 		Spec: &Spec{},
 	})
+	// output:package given on two levels: the innermost line alone decides path and name; the output directory
+	// already holds a file of the package
+	for _, f := range []string{"struct", "function"} {
+		out = append(out, &Conv{
+			ID: "name/output_package_overridden/" + f, Family: "name", Format: f, Solo: true,
+			Params: "source PFXIn", Results: "PFXOut",
+			CLI:       []string{"output:package corpus/GRP/generated:shared"},
+			ConvLines: []string{"output:package corpus/GRP/generated"},
+			Aux:       map[string]string{"generated": "// Package generated holds converters.\npackage generated\n"},
+			Decls:     "type PFXIn struct{ A int }\ntype PFXOut struct{ A int }\n", Spec: &Spec{},
+		})
+		out = append(out, &Conv{
+			ID: "name/output_package_name_kept/" + f, Family: "name", Format: f, Solo: true,
+			Params: "source PFXIn", Results: "PFXOut",
+			CLI:       []string{"output:package corpus/GRP/elsewhere:other"},
+			ConvLines: []string{"output:package corpus/GRP/generated:generated"},
+			Aux:       map[string]string{"generated": "// Package generated holds converters.\npackage generated\n"},
+			Decls:     "type PFXIn struct{ A int }\ntype PFXOut struct{ A int }\n", Spec: &Spec{},
+		})
+	}
 	// custom struct name / several converters in one file are exercised by every group of the other families
 	out = append(out, &Conv{
 		ID: "name/custom_struct_name/struct", Family: "name", Format: "struct",
